@@ -117,15 +117,15 @@ package api
 //@ iface api.SenderInterface.Request
 //@   modifies outmisc
 // log of notifications handed to senders (C08, C07): ntn Notify calls so far (whatever their outcome);
-// nts/ntsrc/ntdst/ntcmd[k]: sender, source address, destination address and command of the k-th call
+// nts/ntsrc/ntdst/ntcmd[k]: sender, source address, destination address and command (as cmdKey) of the k-th call
 //@ ghost ntn int
 //@ ghost nts map[int]any
 //@ ghost ntsrc map[int]*model.FeatureAddressType
 //@ ghost ntdst map[int]*model.FeatureAddressType
-//@ ghost ntcmd map[int]model.CmdType
+//@ ghost ntcmd map[int]int
 //@ modset NTLOG = ntn, nts, ntsrc, ntdst, ntcmd
 //@ iface api.SenderInterface.Notify
-//@   ensures ntn == old(ntn) + 1 && nts == store(old(nts), old(ntn), self) && ntsrc == store(old(ntsrc), old(ntn), senderAddress) && ntdst == store(old(ntdst), old(ntn), destinationAddress) && ntcmd == store(old(ntcmd), old(ntn), cmd)
+//@   ensures ntn == old(ntn) + 1 && nts == store(old(nts), old(ntn), self) && ntsrc == store(old(ntsrc), old(ntn), senderAddress) && ntdst == store(old(ntdst), old(ntn), destinationAddress) && ntcmd == store(old(ntcmd), old(ntn), cmdKey(cmd))
 //@   modifies outmisc, @NTLOG
 // the subscriptions on a local server feature, as seen through the interface (body: C08)
 //@ iface api.SubscriptionManagerInterface.SubscriptionsOnFeature pure
